@@ -169,6 +169,19 @@ SafePost(e, s) ==
     [] e.op = "put" -> SafePut(s, e.v)
     [] e.op = "data" -> SafeRead(s, e.v)
     [] e.op = "next_id" -> s
+\* Limits (C07): the three overruns that must stop with a panic - an id at or above the capacity, the N+1st label of a
+\* vertex, the 17th member of a group - every documented precondition otherwise respected.  Everything else outside
+\* the domain (15th group, absent or equal bind endpoints, calls on absent vertices, an exhausted allocator) is left open.
+Overrun(e, g) ==
+  CASE e.op \in {"add", "put", "data"} -> e.v \notin IdsOf(g)
+    [] e.op = "bind" ->
+         \/ e.v1 \notin IdsOf(g) \/ e.v2 \notin IdsOf(g)
+         \/ /\ e.v1 \in g.present /\ e.v2 \in g.present /\ e.v1 # e.v2
+            /\ LET g1 == GroupOf(g, e.v1)  g2 == GroupOf(g, e.v2) IN
+               \/ (Idx(g.edges[e.v1], e.a) = 0 /\ Len(g.edges[e.v1]) >= MaxN)
+               \/ (g1 = {} /\ g2 # {} /\ Cardinality(g2) >= MaxGroupSize)
+               \/ (g1 # {} /\ g2 = {} /\ Cardinality(g1) >= MaxGroupSize)
+    [] OTHER -> FALSE
 SubjectOf(e) == IF e.op \in {"add", "put", "data"} THEN e.v ELSE -1
 
 \* independence: handles the call did not address keep their last observation
@@ -192,7 +205,10 @@ Mutate(e) ==
       o == ObsOf(e, h)
       alive == IF Broken(o) THEN safe[h].present ELSE ToSet(o.alive)
   IN
-  IF void \/ ~indom THEN Voided
+  IF void \/ IsNull(g) THEN Voided
+  ELSE IF ~indom THEN
+     \* outside the domain: nothing more is judged in this trace, except that the three overruns C07 names must panic
+     [Voided EXCEPT !.fails = fails \cup (IF Overrun(e, g) /\ ~e.panic THEN {F(e, "C07", "a limit overrun completed instead of panicking")} ELSE {})]
   ELSE
   LET g2 == Post(e, g)
       \* ---- C01 on the observed alive set
@@ -226,10 +242,11 @@ Mutate(e) ==
                   \cup (IF e.op = "next_id" /\ e.ret # NextIdOf(g) THEN {F(e, "X-id", "next_id() differs from the model")} ELSE {})
       lat == IF ~judge \/ LatentOk(o, g2) THEN {} ELSE {F(e, "X-latent", "hook: unread set or group partition differs")}
       c10 == IF OthersSame(e, {h}) THEN {} ELSE {F(e, "C10", "a call changed another handle")}
+      c07 == IF e.panic THEN {F(e, "C07", "a call within the limits panicked")} ELSE {}
       mir == IF e.panic THEN {} ELSE MirrorFails(e, o)
   IN
   [Cur EXCEPT
-     !.fails = fails \cup c01 \cup c02 \cup c06 \cup c03 \cup c04 \cup c05 \cup c19 \cup lat \cup c10 \cup mir,
+     !.fails = fails \cup c01 \cup c02 \cup c06 \cup c03 \cup c04 \cup c05 \cup c19 \cup lat \cup c10 \cup c07 \cup mir,
      !.div = (div \/ ~aliveok),
      !.gs = [gs EXCEPT ![h] = g2],
      !.safe = [safe EXCEPT ![h] = SafeSettle(SafePost(e, @), alive)],
